@@ -1,7 +1,71 @@
 import GluonModel.Sexp
-open GluonModel
+import GluonModel.Memo
+open GluonModel GluonModel.Memo
+
+/-
+Requests:  (hist <step>*)   with <step> =
+   (set  m int|str c (d u)*)     add_module only
+   (get  m)                      run_expr "import! m"
+   (load m int|str c (d u)*)     load_script = add_module + import
+Answer: one item per step:  -   |  (ok int v (ran*)) | (ok str c (ran*)) | (err cls (ran*))
+        for load: (ok (ran*)) | (err cls (ran*))
+where ran* are the modules whose body was run by this step, in order.
+-/
+
+def parseDeps : List Sexp → Option (List (Mod × Bool))
+  | [] => some []
+  | .list [d, u] :: rest => do
+    let d ← d.toNat?
+    let u ← u.toNat?
+    let r ← parseDeps rest
+    pure ((d, u != 0) :: r)
+  | _ => none
+
+def parseSrc : List Sexp → Option (Mod × Src)
+  | m :: .atom k :: c :: deps => do
+    let m ← m.toNat?
+    let c ← c.toNat?
+    let k ← (if k == "int" then some Ty.int else if k == "str" then some Ty.str else none)
+    let ds ← parseDeps deps
+    pure (m, ⟨k, c, ds⟩)
+  | _ => none
+
+def showCls : Cls → String
+  | .type => "type" | .missing => "missing" | .cycle => "cycle"
+
+def showLog (l : List Mod) : String := "(" ++ " ".intercalate (l.map toString) ++ ")"
+
+def showRes (full : Bool) (r : Res) (ran : List Mod) : String :=
+  match r with
+  | .ok .int v => if full then s!"(ok int {v} {showLog ran})" else s!"(ok {showLog ran})"
+  | .ok .str v => if full then s!"(ok str {v} {showLog ran})" else s!"(ok {showLog ran})"
+  | .err c => s!"(err {showCls c} {showLog ran})"
+
+def doGet (full : Bool) (st : St) (m : Mod) : String × St :=
+  let before := st.cache.log.length
+  let r := getM st m
+  (showRes full r.1 (r.2.cache.log.drop before), r.2)
+
+def runSteps : List Sexp → St → List String → Option (List String)
+  | [], _, acc => some acc.reverse
+  | .list (.atom "set" :: rest) :: more, st, acc => do
+    let (m, s) ← parseSrc rest
+    runSteps more (setSrc false st m s) ("-" :: acc)
+  | .list [.atom "get", m] :: more, st, acc => do
+    let m ← m.toNat?
+    let (a, st') := doGet true st m
+    runSteps more st' (a :: acc)
+  | .list (.atom "load" :: rest) :: more, st, acc => do
+    let (m, s) ← parseSrc rest
+    let (a, st') := doGet false (setSrc false st m s) m
+    runSteps more st' (a :: acc)
+  | _, _, _ => none
 
 def handle : List Sexp → String
-  | _ => "unimplemented"
+  | .atom "hist" :: steps =>
+    match runSteps steps St.init [] with
+    | some xs => "(" ++ " ".intercalate xs ++ ")"
+    | none => "bad-request"
+  | _ => "bad-request"
 
 def main : IO Unit := driverLoop handle
